@@ -92,6 +92,15 @@ def run(ctx):
             continue
         made += 1
         cases.append(dict(edges=edges, weights=w, massive=massive, ext=ext, D=D, table=table, dod=dod, loops=Lf, accepted=True, name="single_external"))
+    # a chain of nine propagators between the two externals with one of them doubled: whether the graph is accepted is decided by subgraphs
+    # that contain the whole chain (10 edges, 1024 subsets)
+    for wpar in (2.0, 1.0, 1.5, 0.75):
+        for pos in (4, 0, 8):
+            edges = [(i, i + 1) for i in range(9)] + [(pos, pos + 1)]
+            w = [1.0] * 9 + [wpar]
+            dod, Lf, table = oracle.table_oracle(edges, w, [False] * 10, [0, 9], 3)
+            cases.append(dict(edges=edges, weights=w, massive=[False] * 10, ext=[0, 9], D=3, table=table, dod=dod, loops=Lf,
+                              accepted=not oracle.divergent_subsets(table), name="long_chain"))
     # the same endpoints, weights and externals under another mass pattern (history inside one process)
     for c in list(cases[: (25 if ctx.quick else 200)]):
         c2 = graphs.remass(rng, c)
